@@ -215,3 +215,6 @@ mod built_info {
 
 #[cfg(test)]
 mod integration_tests;
+
+#[cfg(amiquip_verif)]
+pub mod verif;
